@@ -95,11 +95,12 @@ def _svalue(call, D, form):
 #        calls it), skw (s= keyword), ns (ns=n given for a real array), freq (the documented frequency-domain form: rfft of the
 #        data and ns=n in, spectrum out; the spectrum handed over is a scratch copy - only a *real* input is promised untouched)
 #   s=   npint (NumPy integer scalar / integer-dtype vector when every shift is a whole number), f4 (float32 scalar when exact),
-#        0d (zero-dimensional array for a single trace), ro / strided (storage of the shift vector)
+#        0d (zero-dimensional array for a single trace), ro / strided (storage of the shift vector), near (float64 one or two
+#        units in the last place off the value, towards / away from zero with k)
 #   dc=  the sub-Nyquist test signal has a non-zero mean, different on every trace
 W_STORE = ("c", "ro", "strided", "f", "offset")
 CALL_FORMS = ("kw", "pos", "default", "skw", "ns", "freq")
-S_FORMS = ("", "npint", "f4", "0d", "ro", "strided")
+S_FORMS = ("", "npint", "f4", "0d", "ro", "strided", "near")
 
 
 def make_var(rng):
@@ -148,6 +149,11 @@ def _svariant(sa, call, D, ntr, v, k):
     """the shift argument `sa` of _svalue in the variant v['s'] (same value)"""
     how = v["s"]
     whole = all(x % D == 0 for x in call["s"])
+    if how == "near":
+        # a shift that is a rounding error away from its value (what -(0.29 * 100) or -2.3 + 0.3 hand over): the same shift within
+        # any tolerance the property can mean, on whichever side of the value it falls
+        f = np.asarray(sa, dtype=np.float64) * (1 + (3e-16 if k % 2 else -3e-16))
+        return f if isinstance(sa, np.ndarray) else float(f)
     if not isinstance(sa, np.ndarray):
         if how == "npint" and whole:
             return (np.int64, np.int32, np.int16)[k % 3](call["s"][0] // D)
@@ -358,6 +364,19 @@ def fshift_plan(ctx):
             progs = _shift_programs(rngv, n, ntr, ctx.quick)
             for D, calls in rngv.sample(progs, min(len(progs), 3 if (ctx.quick or n > 300) else 6)):
                 add(n, ntr, axis, D, calls, rngv)
+    # whole-sample shifts that arrive as the result of float arithmetic (seed round g: -(0.29 * 100) = -28.999999999999996 taken
+    # for a whole shift and truncated to -28): both signs, both sides of the whole number, scalar and per-trace
+    rn = random.Random(ctx.seed + 11)
+    for n in rn.sample([x for x in lens if x >= 4], 16 if ctx.quick else 80):
+        for ntr, axis in ((0, 0), (3, rn.randint(0, 1))):
+            for k in (0, 1):
+                a = rn.randint(1, n - 1) * rn.choice([-1, 1])
+                calls = [{"scalar": True, "s": [a]}] if (ntr == 0 or rn.random() < 0.6) else \
+                    [{"scalar": False, "s": [rn.randint(1, n - 1) * rn.choice([-1, 1]) for _ in range(ntr)]}]
+                if rn.random() < 0.3:
+                    calls.append({"scalar": True, "s": [-a]})
+                plan.append((n, ntr, axis, rn.choice(("f4", "f8")), 1, calls, rn.randint(0, 5), n <= 300, rn.randint(0, 2 ** 31 - 1),
+                             f"w=c,call={rn.choice(('kw', 'pos', 'ns'))},s=near,dc={rn.randint(0, 1)},k={k}"))
     return plan
 
 
